@@ -370,7 +370,7 @@ def install_walker_env(ctx, eng, nsources=1):
             fsm[(name, repr(p))] = wfact(name, p)
             outs = [Outcome(BoolV(wfact(name, p)), events=[Event("Path::" + name, [p], BoolV(wfact(name, p)))])]
             # exists()/is_dir() answer `false` when the stat itself fails (explored once per path, single-source mode)
-            if not st.ghost.get("stat_swallowed") and st.ghost.get("nsources", 1) == 1 and name in ("exists", "is_dir"):
+            if not st.ghost.get("stat_swallowed") and st.ghost.get("nsources", 1) == 1 and name in ("exists", "is_dir", "is_file"):
                 def eff(eng, s2, a2):
                     s2.ghost["stat_swallowed"] = True
                 outs.append(Outcome(BoolV(False), events=[Event("Path::" + name, [p], "stat-failed")], effect=eff))
@@ -391,8 +391,10 @@ def install_walker_env(ctx, eng, nsources=1):
         p = pexpr(eng, st, args[0])
         tie(st, p)
         m = OpaqueV("std::fs::Metadata", "stat:" + repr(p), {"stat_of": p})
+        ioerr = lambda kind: AggV("Result", 1, [OpaqueV("std::io::Error", "stat_error_%s_%d" % (kind, next(eng.fresh_ids)), {"kind": kind})], "Err")
         return [Outcome(ok(m), [wfact("exists", p)], events=[Event("Path::metadata", [p], "ok")]),
-                Outcome(err("std::io::Error"), events=[Event("Path::metadata", [p], "err")])]
+                Outcome(ioerr("NotFound"), [z3.Not(wfact("exists", p))], events=[Event("Path::metadata", [p], "absent")]),
+                Outcome(ioerr("Other"), events=[Event("Path::metadata", [p], "err")])]
     front(r"^(std::path::)?Path::metadata$", s_stat)
     front(r"^(std::path::)?Path::is_symlink$", s_exists("is_symlink"))
 
@@ -666,10 +668,19 @@ def _walker(ctx, src_exprs):
                 if sz:
                     ctx.fail("C12: only regular files announce a size", str([e.name for e in sev]))
             elif k == "Dir":
+                if not ops and not mk and p.status == "return" and is_err(p.ret):
+                    continue      # refused: a non-directory is in the way at the mapped path (reported, nothing created)
                 if ops or len(mk) != 1:
                     ctx.fail("C02/C06: a directory is created synchronously by the walker (no queued operation)", str([e.name for e in sev]))
                     continue
                 check_target(mk[0].args[0], "a directory")
+                # create_dir_all() is content with a symbolic link to a directory: everything beneath would be written
+                # through the link to wherever it leads (outside the destination).  cp: "cannot overwrite non-directory".
+                tgt_ = repr(mk[0].args[0])
+                ctx.lemma(eng, "C02: a directory is created at, or merged into, a real directory -- never through an existing symbolic link at that path",
+                          p.pc + [z3.Implies(fs_fact("lstat_is_symlink", tgt_), fs_fact("lexists", tgt_)),
+                                  z3.Not(z3.And(fs_fact("lstat_is_symlink", tgt_), fs_fact("lstat_is_dir", tgt_)))],
+                          z3.Not(fs_fact("lstat_is_symlink", tgt_)), key="walker:dir-through-existing-symlink")
             elif k in ("Socket", "Fifo", "Char"):
                 if len(ops) != 1 or ops[0].args[0].vname != "Special":
                     ctx.fail("C14: sockets, FIFOs and character devices yield a Special operation", str([e.name for e in sev]))
